@@ -263,6 +263,10 @@ func effectDiff(out *txOutcome) []string {
 func (w *world) ledgerAck(c *xchain, pk *pkt, a Ack, out *txOutcome) {
 	e := exp{}
 	sn := w.acctName(pk.sender)
+	if pk.nested {
+		// the agent contract's callback passes a refund on to the refund address it was given
+		sn = w.acctName(pk.refundTo)
+	}
 	if a.Code != 0 && pk.amount.Sign() > 0 {
 		tn := c.tokName(pk.tok)
 		e.add(tn, sn, pk.amount)
